@@ -5,7 +5,7 @@ from pathlib import Path
 V = Path(__file__).resolve().parent.parent
 
 CLAIMED = {
- "C04": ("per-tree Coq instance theorems c04_generator_model_reproduces_shipped (vm_compute): the Gallina model of the generator applied to each of the 186 pinned definitions yields, for each of their versions (all 666 modules), exactly the shipped classes (names, field order, annotations, metadata, tags, defaults, flexibility, key, header); plus translation validation: the package equals the pinned canonical description incl. the generated entity types' bases and bounds (hand edits), the CURRENT generator re-run on the pinned definitions reproduces the package (generator changes), hand-written API-key pins and counts. Limitation: upstream JSON is not available offline; pinned/defs are reconstructions validated by regenerating all 1629 classes with the unmodified generator",
+ "C04": ("per-tree Coq instance theorems c04_generator_model_reproduces_shipped (vm_compute): the Gallina model of the generator applied to each of the 186 pinned definitions yields, for each of their versions (all 666 modules), exactly the shipped classes (names, field order, annotations, metadata, tags, defaults, flexibility, key, header); plus translation validation: the package equals the pinned canonical description incl. every class's body members and bases and the generated entity types' bases and bounds (hand edits), the CURRENT generator re-run on the pinned definitions reproduces the package (generator changes), hand-written API-key pins and counts. Limitation: upstream JSON is not available offline; pinned/defs are reconstructions validated by regenerating all 1629 classes with the unmodified generator",
          "Coq instance theorems by vm_compute (generator model on pinned definitions) + translation validation of the real generator", "4 C04"),
  "C16": ("Coq theorems over the Gallina model of the generator, for every definition and version: the fields of the emitted top-level class are exactly the definition's fields valid at the version, in order, snake-cased, tagged iff the version is in taggedVersions; all classes carry version/flexibility/key/header rule; one class per structure (no self-nesting); c16_supported_definitions_are_well_formed / c16_supported_definitions_encode_to_spec: for every definition and version satisfying the boolean defn_ok, the plans read off the generated module are well formed, so its classes encode to the wire specification and decode back (defn_ok is evaluated on every generated module and agreed with def_wf on all of them); correspondence on seeded random definitions: real generator output = model, independent reading of the definition (incl. a systematic definition with builtin-colliding names on every kind of field), generated index, and bytes kio encodes for instances of generated classes = model encoder over plans read off the definition (with wf_env checked per module). Partial: pydantic's JSON layer and the supported-subset conditions (keywords, zero-size array items, optional tagged structs) are inside the correspondence, not the theorems",
          "machine-checked proof (Coq) over the generator model + translation-validation correspondence on random definitions", "4 C16"),
@@ -14,7 +14,7 @@ CLAIMED = {
          "machine-checked proof (Coq) + instance theorem + correspondence", "4 C12"),
  "C13": ("instance theorem c13_shipped by vm_compute over all 1629 classes / 5094 fields: annotation <-> kafka type table, nullability only on nullable-capable types, tuple[T, ...] arrays, defaults inhabit the declared type (entity defaults by class identity and field-wise), unique in-range tags on flexible classes only, reader+writer plans derivable by the Gallina rendering of kio's introspection AND well-formed (wf_env, the hypothesis of the codec theorems); that rendering is compared with kio's functions on every field plus 300 synthetic annotation/metadata combinations",
          "Coq instance theorem by vm_compute over translator output + correspondence of the introspection model", "4 C13"),
- "C15": ("instance theorem c15_shipped (every schema class and the four record classes: frozen, slots = fields, eq, no order, no __dict__, deeply immutable field types) + theorems over the abstract machine for frozen instances (equality is field-wise and an equivalence, any hash of class+fields is consistent, no operation changes an instance, copies are equal) + behavioural correspondence on generated instances (setattr/delattr, ==/hash vs structural equality incl. single-field perturbations down to 1 us, copy/deepcopy/replace/pickle). Partial: CPython's dataclass machinery is modelled and sampled, not derived",
+ "C15": ("instance theorem c15_shipped (every schema class and the four record classes: frozen, slots = fields, eq, no order, no __dict__, deeply immutable field types) + theorems over the abstract machine for frozen instances (equality is field-wise and an equivalence, any hash of class+fields is consistent, no operation changes an instance, copies are equal) + behavioural correspondence on generated instances (setattr/delattr, ==/hash vs structural equality incl. single-field perturbations down to 1 us, copy/deepcopy/replace/pickle at every protocol, leaf values restricted to the immutable library types). Partial: CPython's dataclass machinery is modelled and sampled, not derived",
          "Coq instance theorem + machine-checked model theorems + behavioural correspondence (partial)", "4 C15"),
  "C19": ("Coq theorems c19_cache_invariant / c19_use_is_history_independent: for every schedule (any interleaving of any number of threads' lookups, compilations, stores, uses with faults) the cache holds only compile(key) and each use returns what a fresh call returns; correspondence: fresh-interpreter histories, a stream fault at every write/read call followed by reuse, 8 real threads on a cold cache, AST scan for shared mutable state. Partial: real preemption and functools.cache's C code are sampled, not modelled",
          "machine-checked proof (Coq) over all interleavings of the cache model + history/fault/thread correspondence (partial)", "4 C19"),
@@ -27,7 +27,7 @@ CLAIMED = {
          "machine-checked proof (Coq) + wire-first correspondence", "4 C05"),
  "C07": ("Coq theorems c07_sequence (any finite sequence of messages of arbitrary classes followed by arbitrary bytes decodes back to back to the original values), c07_tail_irrelevant / c07_consumes_prefix for every reader program, c07_any_append_sink for every append-only sink (Section hypothesis write-appends, checked on the real sinks); correspondence through BytesIO, write-only sink, BufferedWriter, asyncio.StreamWriter, read(n)-only source, BufferedReader; sequences of equal-but-distinct values (DST fold twins, signed zeros) against the reference encoder",
          "machine-checked proof (Coq) by induction over message lists + sink/source correspondence", "4 C07"),
- "C11": ("Coq theorems over unbounded Z/lists: fixed-width round trip, exact byte length/big-endian value, out-of-range raises; varint minimal length, <=5/<=10 bytes, round trip; zig-zag non-negativity for every integer and round trips; every field-level primitive codec round trip/totality/typed outputs/permitted errors; c11_public_reader_after_writer / c11_public_writers_raise_outside_domain: the same stated about the 58 public functions BY NAME over a table of 40 (writer, reader, domain) rows and 16 bounded writers with exact in-range predicates; correspondence of all 58 modelled public functions by name incl. exhaustive 8/16-bit and varint sweeps compared by CRC; every reader input also decided by an independent decoding of the Kafka primitives (all 65536 error codes, every negative-length shape)",
+ "C11": ("Coq theorems over unbounded Z/lists: fixed-width round trip, exact byte length/big-endian value, out-of-range raises; varint minimal length, <=5/<=10 bytes, round trip; zig-zag non-negativity for every integer and round trips; every field-level primitive codec round trip/totality/typed outputs/permitted errors; c11_public_reader_after_writer / c11_public_writers_raise_outside_domain: the same stated about the 58 public functions BY NAME over a table of 40 (writer, reader, domain) rows and 16 bounded writers with exact in-range predicates; c11_reader_accepts_exactly (what a strict reader accepts is exactly writer output ++ rest), the lenient readers (boolean, varints, compact forms) characterised exactly with a witness per leniency, c11_public_reader_accepts_only_encodings on the 23 strict rows by name; correspondence of all 58 modelled public functions by name incl. exhaustive 8/16-bit and varint sweeps compared by CRC; every reader input also decided by an independent decoding of the Kafka primitives (all 65536 error codes, every negative-length shape)",
          "machine-checked proof (Coq) + exhaustive/boundary correspondence of public primitives", "4 C11"),
  "C17": ("Coq theorems c17_header_derived / c17_independent_decoder_recovers / c17_empty_rejected: the model of write_new_batch produces, for every non-empty record list, a batch whose fields at the format's byte offsets are the derived values, batch_length = len-12, CRC-32C over bytes 21..end, and an independent decoder recovers exactly the records; c17_own_reader_recovers (kio's own reader, as modelled, returns the derived batch for every well-formed new batch, with any trailing bytes); correspondence with kio.records.writers + independent Python decoder",
          "machine-checked proof (Coq) against an independent format parser + correspondence", "4 C17"),
@@ -38,7 +38,7 @@ CLAIMED = {
          "machine-checked proof (Coq) + translator-regenerated instance + correspondence", "4 C01"),
  "C06": ("Coq theorem c06_truncated_is_underflow: every strict prefix of every encoding decodes to BufferUnderflow (from the generic reader-program metatheorem run_prefix_underflow + round trip + fuel monotonicity); correspondence runs every cut of generated encodings through a read(n)-only source",
          "machine-checked proof (Coq) + correspondence over all cut points", "4 C06"),
- "C08": ("instance theorem c08_shipped over the translated schema (header rule written from Kafka's ApiMessageTypeGenerator, pairing through the Gallina model of kio.index), exhaustive over all request/response classes by vm_compute; kio.index pairing functions compared with the model on every class",
+ "C08": ("instance theorem c08_shipped over the translated schema (header rule written from Kafka's ApiMessageTypeGenerator, pairing through the Gallina model of kio.index), exhaustive over all request/response classes by vm_compute; kio.index pairing functions compared with the model on every class and called on a generated instance of every payload class",
          "Coq instance theorem by vm_compute over translator output + correspondence", "4 C08"),
  "C09": ("instance theorem c09_shipped (every top-level class listed under exactly module:qualname, no stale entry, key<->name one-to-one) by vm_compute; loaders compared with the Gallina index model on all entries, near-misses and random lookups",
          "Coq instance theorem by vm_compute over translator output + correspondence", "4 C09"),
